@@ -6,7 +6,7 @@
    are re-checked against them.  Statements only; proofs are in Lemmas_Code_Reporter.v. *)
 From Coq Require Import List ZArith String Bool.
 From CgreenVerif Require Import CLite Runner Lemmas_Code_Reporter.
-From CgreenVerif.Gen Require Import Code.
+From CgreenVerif.Gen Require Import Code_reporter.
 Import ListNotations.
 Local Open Scope string_scope. Local Open Scope list_scope. Local Open Scope Z_scope.
 
